@@ -42,6 +42,16 @@ def spec_cases(chk, zs, thorough):
                     k = 40
                 rgs.append([g.record(z.nodes) for _ in range(k)])
             out.append((z, codecs, flags, rng.randrange(1 << 30), rgs))
+    # long pages encoded as ONE bit-packed run per level stream (run payloads far beyond 255 bytes), and as
+    # RLE runs of length 1 only
+    z = zs.get("three")
+    if z is not None:
+        g = zoolib.Gen(rng, mode="pool", p_nil=0.4, lens=(0, 1, 2, 3))
+        for n in (2200, 300):
+            rs = [g.record(z.nodes) for _ in range(n)]
+            for flags in (("sxB",) if n > 1000 else ("sxB", "xR")):      # many tiny runs are quadratic in the Lean decoders
+                for codec in (0, 2):       # (the Lean snappy encoder is quadratic: kept to the smaller files)
+                    out.append((z, [codec] * len(z.cols), flags, rng.randrange(1 << 30), [rs]))
     return out
 
 
